@@ -449,8 +449,8 @@ Section UpdPres.
         assert (Hn : Q n) by (eapply merge_one_pres; eauto).
         assert (Hd1 : Forall Qe (dict_set d k n)) by (apply Forall_dict_set; auto).
         destruct e1 as [e1|].
-        * inversion H; subst. auto.
-        * eapply IH; eauto.
+        * inversion H; subst. split; [apply KU_set; exact Hk|exact Hd1].
+        * eapply IH; [exact HD2|exact Hc| | |exact H]; [apply KU_set; exact Hk|exact Hd1].
       + destruct (validate (validators_of T c) (VD [(k, nv)])).
         * inversion H; subst. auto.
         * pose proof (Q_fb c nv nx Hc HD1) as G.
@@ -500,3 +500,252 @@ Section UpdPres.
     rewrite Forall_forall in *. intros x Hx. apply upd_pres_all. apply HD; exact Hx.
   Qed.
 End UpdPres.
+
+(* ------------------------------------------------------------------ *)
+(* instances: kinds_match, leaves_scalar, node_keys_unique             *)
+(* ------------------------------------------------------------------ *)
+
+Theorem from_base_kinds_match T b c v nx :
+  in_backend T b c = true -> kinds_match T (fst (from_base T c v nx)) = true.
+Proof.
+  revert c nx. induction v as [s|l IH|d IH] using val_ind2; intros c nx Hc.
+  - reflexivity.
+  - destruct (from_base_cases T c (VL l) nx)
+      as [[s [E _]]|[[l0 [E [_ R]]]|[[d0 [E _]]|[[l0 [c' [l' [nx' [E [C [M R]]]]]]]|[d0 [c' [d' [nx' [E _]]]]]]]]];
+      try discriminate; rewrite R; simpl; [reflexivity|].
+    inversion E; subst l0. destruct (child_cls_in_backend _ _ _ _ _ Hc C) as [Hc' Hk].
+    rewrite Hk. simpl. apply forallb_Forall'.
+    eapply map_st_rel_Forall; [exact M|]. eapply Forall_impl; [|exact IH].
+    intros a Ha s. apply Ha. exact Hc'.
+  - destruct (from_base_cases T c (VD d) nx)
+      as [[s [E _]]|[[l0 [E _]]|[[d0 [E [_ R]]]|[[l0 [c' [l' [nx' [E _]]]]]|[d0 [c' [d' [nx' [E [C [M R]]]]]]]]]]];
+      try discriminate; rewrite R; simpl; [reflexivity|].
+    inversion E; subst d0. destruct (child_cls_in_backend _ _ _ _ _ Hc C) as [Hc' Hk].
+    rewrite Hk. simpl. apply forallb_Forall'.
+    eapply map_st_rel_Forall with (Q := fun kn : key * node => kinds_match T (snd kn) = true);
+      [exact M|]. eapply Forall_impl; [|exact IH].
+    intros [k w] Ha s. rewrite fb_entry_fst. simpl in *. apply Ha. exact Hc'.
+Qed.
+
+Lemma wf_val_VL l : wf_val (VL l) = true -> Forall (fun v => wf_val v = true) l.
+Proof. simpl. intros H. apply forallb_Forall'. exact H. Qed.
+
+Lemma wf_val_VD d : wf_val (VD d) = true -> Forall (fun kv : key * val => wf_val (snd kv) = true) d.
+Proof. simpl. intros H. apply andb_true_iff in H. destruct H as [_ H]. apply forallb_Forall' in H. exact H. Qed.
+
+Section Instances.
+  Variables (T : class_table) (b : nat).
+
+  (* --- kinds_match --- *)
+  Definition Qk (n : node) : Prop := node_in_backend T b n /\ kinds_match T n = true.
+  Definition CkL (c : nat) : Prop :=
+    in_backend T b c = true /\ kind_eqb (c_kind (get_cls T c)) KList = true.
+  Definition CkD (c : nat) : Prop :=
+    in_backend T b c = true /\ kind_eqb (c_kind (get_cls T c)) KDict = true.
+
+  Lemma Qk_NL id c l : Qk (NL id c l) <-> CkL c /\ Forall Qk l.
+  Proof.
+    unfold Qk, CkL. rewrite nib_NL. simpl. rewrite andb_true_iff, forallb_Forall'.
+    rewrite !Forall_forall. split.
+    - intros [[H1 H2] [H3 H4]]. split; auto.
+    - intros [[H1 H2] H3]. repeat split; auto; intros x Hx; apply H3; exact Hx.
+  Qed.
+
+  Lemma Qk_ND id c d : Qk (ND id c d) <-> CkD c /\ True /\ Forall (fun kn : key * node => Qk (snd kn)) d.
+  Proof.
+    unfold Qk, CkD. rewrite nib_ND. simpl. rewrite andb_true_iff, forallb_Forall'.
+    rewrite !Forall_forall. split.
+    - intros [[H1 H2] [H3 H4]]. split; auto.
+    - intros [[H1 H2] [_ H3]]. repeat split; auto; intros x Hx; apply H3; exact Hx.
+  Qed.
+
+  Lemma upd_kinds data n nx n' nx' e :
+    node_in_backend T b n -> kinds_match T n = true -> upd T data n nx = (n', nx', e) ->
+    kinds_match T n' = true.
+  Proof.
+    intros Hb Hk H.
+    assert (G : Qk n') ; [|exact (proj2 G)].
+    eapply (upd_pres_all T b Qk (fun _ => True) CkL CkD (fun _ => True) Qk_NL Qk_ND); try exact H;
+      try (split; assumption); auto.
+    - intros c [Hc _]; exact Hc.
+    - intros c [Hc _]; exact Hc.
+    - intros l _. apply Forall_forall. auto.
+    - intros d _. apply Forall_forall. auto.
+    - intros c nv nx0 Hc _. split; [apply from_base_in_backend; exact Hc|].
+      eapply from_base_kinds_match; exact Hc.
+  Qed.
+
+  (* --- leaves_scalar --- *)
+  Hypothesis HB : backend_has_both T b = true.
+
+  Definition Ql (n : node) : Prop := node_in_backend T b n /\ leaves_scalar n = true.
+  Definition Cb (c : nat) : Prop := in_backend T b c = true.
+
+  Lemma Ql_NL id c l : Ql (NL id c l) <-> Cb c /\ Forall Ql l.
+  Proof.
+    unfold Ql, Cb. rewrite nib_NL. simpl. rewrite forallb_Forall'.
+    rewrite !Forall_forall. split.
+    - intros [[H1 H2] H3]. split; auto.
+    - intros [H1 H3]. repeat split; auto; intros x Hx; apply H3; exact Hx.
+  Qed.
+
+  Lemma Ql_ND id c d : Ql (ND id c d) <-> Cb c /\ True /\ Forall (fun kn : key * node => Ql (snd kn)) d.
+  Proof.
+    unfold Ql, Cb. rewrite nib_ND. simpl. rewrite forallb_Forall'.
+    rewrite !Forall_forall. split.
+    - intros [[H1 H2] H3]. split; auto.
+    - intros [H1 [_ H3]]. repeat split; auto; intros x Hx; apply H3; exact Hx.
+  Qed.
+
+  Lemma upd_leaves data n nx n' nx' e :
+    node_in_backend T b n -> leaves_scalar n = true -> upd T data n nx = (n', nx', e) ->
+    leaves_scalar n' = true.
+  Proof.
+    intros Hb Hk H.
+    assert (G : Ql n') ; [|exact (proj2 G)].
+    eapply (upd_pres_all T b Ql (fun _ => True) Cb Cb (fun _ => True) Ql_NL Ql_ND); try exact H;
+      try (split; assumption); auto.
+    - intros l _. apply Forall_forall. auto.
+    - intros d _. apply Forall_forall. auto.
+    - intros c nv nx0 Hc _. split; [apply from_base_in_backend; exact Hc|].
+      eapply from_base_leaves_scalar; eauto.
+  Qed.
+
+  (* --- node_keys_unique --- *)
+  Definition Qu (n : node) : Prop := node_in_backend T b n /\ node_keys_unique n = true.
+  Definition Dwf (v : val) : Prop := wf_val v = true.
+  Definition KUu (d : list (key * node)) : Prop := keys_unique d = true.
+
+  Lemma Qu_NL id c l : Qu (NL id c l) <-> Cb c /\ Forall Qu l.
+  Proof.
+    unfold Qu, Cb. rewrite nib_NL. simpl. rewrite forallb_Forall'.
+    rewrite !Forall_forall. split.
+    - intros [[H1 H2] H3]. split; auto.
+    - intros [H1 H3]. repeat split; auto; intros x Hx; apply H3; exact Hx.
+  Qed.
+
+  Lemma Qu_ND id c d : Qu (ND id c d) <-> Cb c /\ KUu d /\ Forall (fun kn : key * node => Qu (snd kn)) d.
+  Proof.
+    unfold Qu, Cb, KUu. rewrite nib_ND. simpl. rewrite andb_true_iff, forallb_Forall'.
+    rewrite !Forall_forall. split.
+    - intros [[H1 H2] [H3 H4]]. repeat split; auto.
+    - intros [H1 [H2 H3]]. repeat split; auto; intros x Hx; apply H3; exact Hx.
+  Qed.
+
+  Lemma Qu_fb c nv nx : in_backend T b c = true -> Dwf nv -> Qu (fst (from_base T c nv nx)).
+  Proof.
+    intros Hc Hd. split; [apply from_base_in_backend; exact Hc|].
+    rewrite nku_wf, to_base_from_base. exact Hd.
+  Qed.
+
+  Lemma upd_keys data n nx n' nx' e :
+    node_in_backend T b n -> node_keys_unique n = true -> wf_val data = true ->
+    upd T data n nx = (n', nx', e) -> node_keys_unique n' = true.
+  Proof.
+    intros Hb Hk Hd H.
+    assert (G : Qu n') ; [|exact (proj2 G)].
+    eapply (upd_pres_all T b Qu Dwf Cb Cb KUu Qu_NL Qu_ND); try exact H;
+      try (split; assumption); auto.
+    - intros d k n0. apply keys_unique_dict_set.
+    - intros d dd. apply keys_unique_keep_keys.
+    - exact wf_val_VL.
+    - exact wf_val_VD.
+    - exact Qu_fb.
+  Qed.
+
+  (* --- all structural facts together (for the machine invariant) --- *)
+  Definition wfn (n : node) : Prop :=
+    node_in_backend T b n /\ kinds_match T n = true /\ leaves_scalar n = true
+    /\ node_keys_unique n = true.
+
+  Lemma wfn_NL id c l : wfn (NL id c l) <-> CkL c /\ Forall wfn l.
+  Proof.
+    unfold wfn, CkL. rewrite nib_NL. simpl. rewrite andb_true_iff, !forallb_Forall'.
+    rewrite !Forall_forall. split.
+    - intros [[H1 H2] [[H3 H4] [H5 H6]]]. repeat split; auto; apply H2; auto.
+    - intros [[H1 H2] H3]. repeat split; auto; intros x Hx; apply H3; exact Hx.
+  Qed.
+
+  Lemma wfn_ND id c d :
+    wfn (ND id c d) <-> CkD c /\ KUu d /\ Forall (fun kn : key * node => wfn (snd kn)) d.
+  Proof.
+    unfold wfn, CkD, KUu. rewrite nib_ND. simpl. rewrite !andb_true_iff, !forallb_Forall'.
+    rewrite !Forall_forall. split.
+    - intros [[H1 H2] [[H3 H4] [H5 [H6 H7]]]]. repeat split; auto; apply H2; auto.
+    - intros [[H1 H2] [H3 H4]]. repeat split; auto; intros x Hx; apply H4; exact Hx.
+  Qed.
+
+  Lemma wfn_fb c nv nx : in_backend T b c = true -> Dwf nv -> wfn (fst (from_base T c nv nx)).
+  Proof.
+    intros Hc Hd. split; [apply from_base_in_backend; exact Hc|].
+    split; [eapply from_base_kinds_match; exact Hc|].
+    split; [eapply from_base_leaves_scalar; eauto|].
+    rewrite nku_wf, to_base_from_base. exact Hd.
+  Qed.
+
+  Lemma upd_wfn data n nx n' nx' e :
+    wfn n -> wf_val data = true -> upd T data n nx = (n', nx', e) -> wfn n'.
+  Proof.
+    intros Hw Hd H.
+    eapply (upd_pres_all T b wfn Dwf CkL CkD KUu wfn_NL wfn_ND); try exact H; auto.
+    - intros c [Hc _]; exact Hc.
+    - intros c [Hc _]; exact Hc.
+    - intros d k n0. apply keys_unique_dict_set.
+    - intros d dd. apply keys_unique_keep_keys.
+    - exact wf_val_VL.
+    - exact wf_val_VD.
+    - exact wfn_fb.
+  Qed.
+
+  Lemma upd_entries_wfn c dd d nx d' nx' e :
+    Forall (fun kv : key * val => wf_val (snd kv) = true) dd -> in_backend T b c = true ->
+    keys_unique d = true -> Forall (fun kn : key * node => wfn (snd kn)) d ->
+    upd_entries T (fun v => upd T v) c dd d nx = (d', nx', e) ->
+    keys_unique d' = true /\ Forall (fun kn : key * node => wfn (snd kn)) d'.
+  Proof.
+    intros HD Hc Hk Hd H.
+    eapply (upd_entries_pres_all T b wfn Dwf CkL CkD KUu wfn_NL wfn_ND); try exact H; auto.
+    - intros c0 [Hc0 _]; exact Hc0.
+    - intros c0 [Hc0 _]; exact Hc0.
+    - intros d0 k n0. apply keys_unique_dict_set.
+    - intros d0 dd0. apply keys_unique_keep_keys.
+    - exact wf_val_VL.
+    - exact wf_val_VD.
+    - exact wfn_fb.
+  Qed.
+End Instances.
+
+Lemma upd_same_head T data n nx n' nx' e :
+  upd T data n nx = (n', nx', e) ->
+  node_id n' = node_id n /\ node_cls n' = node_cls n /\ node_kind n' = node_kind n.
+Proof.
+  intros H. destruct n as [v|id c l|id c d], data as [s|dl|dd];
+    try (simpl in H; inversion H; subst; repeat split; reflexivity).
+  - rewrite upd_NL_VL in H. destruct (upd_prefix _ _ _ _ _ _) as [[l' nx2] e2].
+    inversion H; subst. repeat split; reflexivity.
+  - rewrite upd_ND_VD in H. destruct (upd_entries _ _ _ _ _ _) as [[d' nx2] [e2|]];
+      inversion H; subst; repeat split; reflexivity.
+Qed.
+
+(* well-formedness facts preserved by the merge for ANY data (also on error) *)
+Theorem upd_wf T b data n nx n' nx' e :
+  backend_has_both T b = true -> node_in_backend T b n ->
+  upd T data n nx = (n', nx', e) ->
+  (kinds_match T n = true -> kinds_match T n' = true)
+  /\ (leaves_scalar n = true -> leaves_scalar n' = true)
+  /\ (node_keys_unique n = true -> wf_val data = true -> node_keys_unique n' = true)
+  /\ node_id n' = node_id n /\ node_cls n' = node_cls n /\ node_kind n' = node_kind n.
+Proof.
+  intros HB Hn H. split; [|split; [|split]].
+  - intros Hk. eapply upd_kinds; eauto.
+  - intros Hl. eapply upd_leaves; eauto.
+  - intros Hu Hd. eapply upd_keys; eauto.
+  - eapply upd_same_head; eauto.
+Qed.
+
+Print Assumptions upd_ids.
+Print Assumptions upd_wf.
+Print Assumptions upd_ids_step.
+Print Assumptions upd_entries_ids_step.
+Print Assumptions upd_wfn.
+Print Assumptions upd_entries_wfn.
